@@ -243,6 +243,177 @@ theorem SameViews.overlapsWith_right {b b' : OfMatch} (h : SameViews b b') (a : 
   intro f
   rw [h.view f]
 
+theorem SameViews.refl (a : OfMatch) : SameViews a a := ⟨rfl, fun _ _ => rfl, rfl, rfl⟩
+
+theorem SameViews.trans {a b c : OfMatch} (h1 : SameViews a b) (h2 : SameViews b c) : SameViews a c :=
+  ⟨h1.w.trans h2.w, fun f hf => (h1.g f hf).trans (h2.g f (by rw [← h1.wild f]; exact hf)), h1.s.trans h2.s, h1.d.trans h2.d⟩
+
+/-! ### the ToS byte: DSCP comparison (repair D36) and insignificant values -/
+
+/-- a match with its ToS value reduced to the six DSCP bits -/
+def dscpA (m : OfMatch) : OfMatch := { m with nwTos := m.nwTos / 4 * 4 }
+
+theorem SameViews.dscpA {a b : OfMatch} (h : SameViews a b) : SameViews (dscpA a) (dscpA b) := by
+  refine ⟨h.w, ?_, h.s, h.d⟩
+  intro f hf
+  have hf' : a.wild f = false := hf
+  cases f <;> first
+    | exact h.g _ hf'
+    | (show a.nwTos / 4 * 4 = b.nwTos / 4 * 4
+       have := h.g .nwTos hf'
+       have e : a.nwTos = b.nwTos := this
+       rw [e])
+
+/-- the transmitted record as the ToS comparison of the code variant effectively reads it: `d = true` (repair D36) the DSCP bits;
+    otherwise the byte itself where the standard compares it, and nothing where it does not -/
+def tosNorm (d : Bool) (r : OfMatch) : OfMatch :=
+  if d then dscpA r else if Spec.significant r Spec.W_NW_TOS then r else { r with nwTos := 0 }
+
+theorem tosNorm_fields (d : Bool) (r : OfMatch) :
+    (tosNorm d r).wildcards = r.wildcards ∧ (tosNorm d r).dlType = r.dlType ∧ (tosNorm d r).nwProto = r.nwProto ∧
+    (tosNorm d r).nwSrc = r.nwSrc ∧ (tosNorm d r).nwDst = r.nwDst := by
+  unfold tosNorm dscpA
+  cases d
+  · simp only [Bool.false_eq_true, if_false]; split <;> exact ⟨rfl, rfl, rfl, rfl, rfl⟩
+  · exact ⟨rfl, rfl, rfl, rfl, rfl⟩
+
+theorem srcIgn_tosNorm (d : Bool) (r : OfMatch) : Spec.srcIgn (tosNorm d r) = Spec.srcIgn r ∧ Spec.dstIgn (tosNorm d r) = Spec.dstIgn r := by
+  unfold tosNorm dscpA
+  cases d
+  · simp only [Bool.false_eq_true, if_false]; split <;> exact ⟨rfl, rfl⟩
+  · exact ⟨rfl, rfl⟩
+
+theorem tosNorm_get (d : Bool) (r : OfMatch) (f : Fld) (hf : f ≠ .nwTos) : (tosNorm d r).get f = r.get f := by
+  unfold tosNorm dscpA
+  cases d
+  · simp only [Bool.false_eq_true, if_false]; split
+    · rfl
+    · cases f <;> first | rfl | exact absurd rfl hf
+  · simp only [if_true]; cases f <;> first | rfl | exact absurd rfl hf
+
+theorem tosNorm_tos4 (d : Bool) (r : OfMatch) (h : d = false → Spec.significant r Spec.W_NW_TOS = true → r.nwTos % 4 = 0) :
+    (tosNorm d r).nwTos % 4 = 0 := by
+  unfold tosNorm dscpA
+  cases d
+  · simp only [Bool.false_eq_true, if_false]
+    split
+    · exact h rfl (by assumption)
+    · rfl
+  · simp only [if_true]; omega
+
+theorem prereq_tosNorm (d : Bool) (r : OfMatch) (h : PrereqExact r) : PrereqExact (tosNorm d r) := by
+  obtain ⟨w, t, pr, _, _⟩ := tosNorm_fields d r
+  unfold PrereqExact OfMatch.wild at *
+  rw [w, t, pr]; exact h
+
+theorem matchHdr_tosNorm (d : Bool) (r : OfMatch) (h : Spec.Headers) : Spec.matchHdr (tosNorm d r) h = Spec.matchHdr r h := by
+  obtain ⟨w, t, pr, sa, da⟩ := tosNorm_fields d r
+  have hw : ∀ bit, Spec.wild (tosNorm d r) bit = Spec.wild r bit := fun bit => by simp [Spec.wild, w]
+  have hdl : ∀ x, Spec.dlTypeIs (tosNorm d r) x = Spec.dlTypeIs r x := fun x => by simp [Spec.dlTypeIs, hw, t]
+  have hip : Spec.ipSpecified (tosNorm d r) = Spec.ipSpecified r := by simp [Spec.ipSpecified, hdl]
+  have hnw : Spec.nwSpecified (tosNorm d r) = Spec.nwSpecified r := by simp [Spec.nwSpecified, hdl]
+  have htp : Spec.tpSpecified (tosNorm d r) = Spec.tpSpecified r := by simp [Spec.tpSpecified, hdl, hw, pr]
+  have hsi : Spec.srcIgnored (tosNorm d r) = Spec.srcIgnored r := by simp [Spec.srcIgnored, w]
+  have hdi : Spec.dstIgnored (tosNorm d r) = Spec.dstIgnored r := by simp [Spec.dstIgnored, w]
+  have g : ∀ f, f ≠ Fld.nwTos → (tosNorm d r).get f = r.get f := tosNorm_get d r
+  have g1 : (tosNorm d r).inPort = r.inPort := g .inPort (by decide)
+  have g2 : (tosNorm d r).dlSrc = r.dlSrc := g .dlSrc (by decide)
+  have g3 : (tosNorm d r).dlDst = r.dlDst := g .dlDst (by decide)
+  have g4 : (tosNorm d r).dlVlan = r.dlVlan := g .dlVlan (by decide)
+  have g5 : (tosNorm d r).dlVlanPcp = r.dlVlanPcp := g .dlVlanPcp (by decide)
+  have g6 : (tosNorm d r).tpSrc = r.tpSrc := g .tpSrc (by decide)
+  have g7 : (tosNorm d r).tpDst = r.tpDst := g .tpDst (by decide)
+  have htos : (!Spec.ipSpecified r || Spec.wild r Spec.W_NW_TOS || (tosNorm d r).nwTos / 4 == h.nwTos / 4) =
+      (!Spec.ipSpecified r || Spec.wild r Spec.W_NW_TOS || r.nwTos / 4 == h.nwTos / 4) := by
+    unfold tosNorm dscpA
+    cases d
+    · simp only [Bool.false_eq_true, if_false]
+      split
+      · rfl
+      · rename_i hs
+        have : (!Spec.ipSpecified r || Spec.wild r Spec.W_NW_TOS) = true := by
+          simp only [Spec.significant, if_true] at hs
+          cases h1 : Spec.ipSpecified r <;> cases h2 : Spec.wild r Spec.W_NW_TOS <;> simp [h1, h2] at hs ⊢
+        simp [this]
+    · simp only [if_true]
+      have : r.nwTos / 4 * 4 / 4 = r.nwTos / 4 := Nat.mul_div_cancel _ (by decide)
+      rw [this]
+  simp only [Spec.matchHdr, hw, hip, hnw, htp, hsi, hdi, t, pr, sa, da, g1, g2, g3, g4, g5, g6, g7, htos]
+
+/-- `ofWire` of the normalised record is, for every test, the (DSCP-reduced, with repair D36) `ofWire` of the record -/
+theorem tos_same (d : Bool) (e : OfMatch) (hp : PrereqExact e) :
+    SameViews (if d then dscpA (ofWire e) else ofWire e) (ofWire (tosNorm d e)) := by
+  obtain ⟨w, t, pr, sa, da⟩ := tosNorm_fields d e
+  have hwc : (ofWire (tosNorm d e)).wildcards = (ofWire e).wildcards := by
+    show normalize (unwire (tosNorm d e).dlType (tosNorm d e).nwProto (tosNorm d e).wildcards) = _
+    rw [w, t, pr]; rfl
+  refine ⟨by cases d <;> exact hwc.symm, ?_, by cases d <;> exact sa.symm, by cases d <;> exact da.symm⟩
+  intro f hf
+  have hf' : (ofWire e).wild f = false := by cases d <;> exact hf
+  by_cases hft : f = .nwTos
+  · subst hft
+    have hs : Spec.significant e Spec.W_NW_TOS = true := by
+      have := sig_agree e hp .nwTos
+      rw [hf'] at this
+      simpa [Fld.bit, Spec.W_NW_TOS] using this.symm
+    unfold tosNorm dscpA
+    cases d
+    · simp only [Bool.false_eq_true, if_false, hs, if_true]
+    · rfl
+  · have h1 : (ofWire (tosNorm d e)).get f = e.get f := by rw [ofWire_get, tosNorm_get d e f hft]
+    rw [h1]
+    cases d
+    · exact ofWire_get e f
+    · simp only [if_true]
+      cases f <;> first | rfl | exact absurd rfl hft
+
+/-! ### the packet side -/
+
+/-- what `from_packet` assigned, with the ToS value reduced to the DSCP bits -/
+def mapTos (o : OHeaders) : OHeaders := { o with nwTos := o.nwTos.map (· / 4 * 4) }
+
+theorem fromHeaders_mapTos (o : OHeaders) : fromHeaders (mapTos o) = dscpA (fromHeaders o) := by
+  unfold mapTos dscpA fromHeaders
+  cases h : o.nwTos <;> simp [OHeaders.get, setFlagWild, Fld.all, h]
+
+/-- the frame's 12-tuple agrees with what `from_packet` assigned once the ECN bits are dropped — for every complete frame,
+    whatever its ToS byte -/
+theorem agree_mapTos (g : Bool) (p : PHdr) (port : Nat) (hr : regularG g p = true) :
+    Agree (mapTos (extractG g true p (some port))) (Spec.headers p port) := by
+  have e := extract_ok_auxG g p port hr
+  refine ⟨e.inPort, e.dlSrc, e.dlDst, e.dlVlan, e.dlVlanPcp, e.dlType, ?_, ?_, ?_, ?_⟩
+  · intro hd
+    obtain ⟨a, b, c⟩ := e.nwHere hd
+    exact ⟨e.nwSrc.of_isSome a, e.nwDst.of_isSome b, e.nwProto.of_isSome c⟩
+  · intro hd
+    have h1 := e.tosHere hd
+    have h2 := e.nwTos
+    show (extractG g true p (some port)).nwTos.map (· / 4 * 4) = _
+    rw [h1] at h2 ⊢
+    rcases h2 with h2 | ⟨h2, _⟩
+    · exact h2
+    · simp at h2
+  · rcases e.nwTos with h2 | ⟨_, h2⟩
+    · cases hq : (extractG g true p (some port)).nwTos with
+      | none => simp [hq] at h2
+      | some t => simp [hq] at h2; omega
+    · omega
+  · intro hd hl
+    obtain ⟨a, b⟩ := e.tpHere hd hl
+    exact ⟨e.tpSrc.of_isSome a, e.tpDst.of_isSome b⟩
+
+/-- a match that does not compare the ToS byte accepts a packet's match whatever ToS value it carries -/
+theorem accepts_tos_irrelevant (m : OfMatch) (o : OHeaders) (h : m.wild .nwTos = true) :
+    matchesWith false m (fromHeaders o) = matchesWith false m (fromHeaders (mapTos o)) := by
+  rw [accepts_fromHeaders, accepts_fromHeaders]
+  have hf : ∀ f, fieldOk m o f = fieldOk m (mapTos o) f := by
+    intro f
+    unfold fieldOk
+    cases f <;> first | rfl | simp [h]
+  have e : (fun f => fieldOk m (mapTos o) f) = fieldOk m (mapTos o) := rfl
+  rw [show fieldOk m o = fieldOk m (mapTos o) from funext hf]
+  rfl
+
 namespace Variant
 variable (v : Variant)
 
